@@ -283,8 +283,10 @@ def _(c):
 @CS.contract("skepticoin.consensus.construct_pow_evidence", props=["C05"])
 def _(c):
     c.summary("pow_evidence")
-    c.trust("summarised as a function of (chain state, summary, height, transactions) here; its definition is checked "
-            "under C05 (construct_pow_evidence_after_scrypt)")
+    c.requires("current_height >= 0")
+    # recomputation = the constructor the miner uses, applied to the scrypt of the summary
+    c.ensures("same(result, construct_pow_evidence_after_scrypt(construct_summary_hash(summary, current_height),"
+              " coinstate, summary, current_height, transactions))")
 
 
 @CS.contract("skepticoin.consensus.validate_block_in_coinstate", props=["C01", "C02", "C05", "C18"])
@@ -302,3 +304,68 @@ def _(c):
         "implies(%s, len(txs) >= 1 and G.coinbase_in_state(txs[0], block, coinstate))" % full,
         "implies(%s, all(G.tx_in_state(txs[1 + j], prev, coinstate) for j in range(len(txs) - 1)))" % full)
     c.loop(0).invariant("all(G.tx_in_state(txs[1 + j], prev, coinstate) for j in range(i))")
+
+
+# ---------------------------------------------------------------------------------------------------- construction (C05, C12)
+
+@CS.contract("skepticoin.consensus.construct_coinbase_transaction", props=["C12", "C05"])
+def _(c):
+    c.summary("coinbase_tx")
+    c.params(unspent_transaction_outs=MAP(CLS('OutputReference'), CLS('Output')), miner_public_key=CLS('PublicKey'))
+    c.predicate("coinbase_built", ["height", "other_transactions", "unspent_transaction_outs", "signature", "miner_public_key"])
+    c.ensures(
+        "len(result.inputs) == 1 and len(result.outputs) == 1 and result.cached_hash is None",
+        "result.inputs[0].output_reference.hash == ZERO32 and result.inputs[0].output_reference.index == 0",
+        "isinstance(result.inputs[0].signature, CoinbaseData) and result.inputs[0].signature.height == height"
+        " and result.inputs[0].signature.signature == signature",
+        # the reward pays exactly subsidy(height) + fees of the included transactions, to the miner's key
+        "result.outputs[0].value == get_block_subsidy(height) + get_block_fees(other_transactions, unspent_transaction_outs)",
+        "same(result.outputs[0].public_key, miner_public_key)",
+        "0 <= height <= 0xFFFFFFFF and len(signature) <= 256")
+    c.requires("height >= 0")
+
+
+@CS.contract("skepticoin.consensus.construct_minable_summary", props=["C12", "C05"])
+def _(c):
+    c.summary("minable_summary")
+    c.predicate("summary_built", ["coinstate", "transactions", "current_timestamp", "nonce"])
+    c.requires("coinstate.current_chain_hash is not None")
+    c.let(head="coinstate.block_by_hash[coinstate.current_chain_hash]")
+    c.ensures(
+        "coinstate.current_chain_hash in coinstate.block_by_hash",
+        "result.height == head.header.summary.height + 1",
+        "result.previous_block_hash == coinstate.current_chain_hash",
+        "result.merkle_root_hash == calc_merkle_root_hash(transactions)",
+        "result.timestamp == current_timestamp and result.nonce == nonce",
+        # the target is computed exactly as the validator recomputes it: same function, same arguments
+        "result.target == calc_target(coinstate, head.header.summary.height + 1, current_timestamp, head)")
+
+
+@CS.contract("skepticoin.consensus.construct_block_pow_evidence_input", props=["C12", "C05"])
+def _(c):
+    c.params(miner_public_key=CLS('PublicKey'))
+    c.predicate("candidate_built", ["coinstate", "non_coinbase_transactions", "miner_public_key", "current_timestamp", "random_data", "nonce"])
+    c.summary("candidate")
+    c.returns(TUPLE(CLS('BlockSummary'), INT, LIST(CLS('Transaction'))))
+    c.let(cur="coinstate.current_chain_hash", head="coinstate.block_by_hash[coinstate.current_chain_hash]")
+    c.requires("coinstate.current_chain_hash is not None and len(coinstate.current_chain_hash) == 32",
+               "head.header.summary.height >= 0")
+    c.ensures(
+        "cur in coinstate.block_by_hash and cur in coinstate.unspent_transaction_outs_by_hash",
+        "result[1] == head.header.summary.height + 1",
+        "len(result[2]) == 1 + len(non_coinbase_transactions) and same(result[2][1:], non_coinbase_transactions)",
+        "G.coinbase_built(result[1], non_coinbase_transactions, coinstate.unspent_transaction_outs_by_hash[cur], random_data, miner_public_key)",
+        "same(result[2][0], construct_coinbase_transaction(result[1], non_coinbase_transactions,"
+        " coinstate.unspent_transaction_outs_by_hash[cur], random_data, miner_public_key))",
+        "G.summary_built(coinstate, result[2], current_timestamp, nonce)",
+        "same(result[0], construct_minable_summary(coinstate, result[2], current_timestamp, nonce))",
+        # header fields of the candidate: what the validator will compare against
+        "result[0].height == result[1] and result[0].previous_block_hash == cur",
+        "result[0].timestamp == current_timestamp and result[0].nonce == nonce",
+        "result[0].merkle_root_hash == calc_merkle_root_hash(result[2])",
+        "result[0].target == calc_target(coinstate, result[1], current_timestamp, head)",
+        # the reward transaction of the candidate
+        "len(result[2][0].outputs) == 1 and result[2][0].outputs[0].value == get_block_subsidy(result[1])"
+        " + get_block_fees(non_coinbase_transactions, coinstate.unspent_transaction_outs_by_hash[cur])",
+        "same(result[2][0].outputs[0].public_key, miner_public_key)",
+        "isinstance(result[2][0].inputs[0].signature, CoinbaseData) and result[2][0].inputs[0].signature.height == result[1]")
